@@ -11,6 +11,12 @@ BUILD = os.path.join(VERIF, 'build')
 JOBS = int(os.environ.get('VERIF_JOBS', '16'))
 CXX = 'g++'
 COMMON = ['-std=gnu++11', '-DHAVE_CONFIG_H', '-w', '-fno-strict-aliasing']
+# z3: the system 4.8.12 (libz3-dev) or, by default, the 5.1 library shipped with the z3-solver wheel of the tooling venv
+# (4.8.12's incremental core diverges on mod-periodic integer queries that 5.1 decides at once).
+Z3NEW = '/opt/veriftools/pyvenv/lib/python3.11/site-packages/z3'
+USE_Z3NEW = os.environ.get('VERIF_Z3', 'new') == 'new' and os.path.exists(os.path.join(Z3NEW, 'lib', 'libz3.so'))
+Z3INC = ['-I' + os.path.join(Z3NEW, 'include')] if USE_Z3NEW else []
+Z3LINK = ['-L' + os.path.join(Z3NEW, 'lib'), '-Wl,-rpath,' + os.path.join(Z3NEW, 'lib'), '-lz3'] if USE_Z3NEW else ['-lz3']
 
 
 def _hash_files(files, extra=''):
@@ -100,14 +106,14 @@ def harness_bin(names, mode):
     rt = [os.path.join(VERIF, 'symrt', f) for f in rt]
     hs = [os.path.join(VERIF, 'harness', n + '.cc') for n in names]
     hdrs = glob.glob(os.path.join(VERIF, 'symrt', '*.hh')) + glob.glob(os.path.join(VERIF, 'oracle', '*.hh')) + glob.glob(os.path.join(VERIF, 'harness', '*.hh'))
-    incs = ['-I' + os.path.join(VERIF, 'symrt'), '-I' + os.path.join(VERIF, 'oracle'), '-I' + os.path.join(VERIF, 'harness'),
+    incs = Z3INC + ['-I' + os.path.join(VERIF, 'symrt'), '-I' + os.path.join(VERIF, 'oracle'), '-I' + os.path.join(VERIF, 'harness'),
             '-I' + REPO, '-I' + os.path.join(REPO, 'src')]
     if mode == 'sym':
         incs = ['-I' + os.path.join(VERIF, 'symgmp')] + incs
     interfaces = any('C20' in n for n in names)
     objs, cmds = [], []
     for s in rt + hs:
-        h = _hash_files([s] + hdrs + repo_sources() + (glob.glob(os.path.join(VERIF, 'symgmp', '*.h')) if mode == 'sym' else []), mode)
+        h = _hash_files([s] + hdrs + repo_sources() + (glob.glob(os.path.join(VERIF, 'symgmp', '*.h')) if mode == 'sym' else []), mode + str(USE_Z3NEW))
         od = os.path.join(BUILD, 'obj-' + mode)
         os.makedirs(od, exist_ok=True)
         o = os.path.join(od, os.path.basename(s)[:-3] + '-' + h + '.o')
@@ -117,12 +123,12 @@ def harness_bin(names, mode):
                 os.remove(old)
             cmds.append([CXX] + COMMON + ['-O1', '-g'] + incs + ['-c', s, '-o', o])
     _run_many(cmds)
-    tag = _hash_files(objs + [os.path.join(libd, 'libppl.a')], mode)
+    tag = _hash_files(objs + [os.path.join(libd, 'libppl.a')], mode + str(USE_Z3NEW))
     exe = os.path.join(BUILD, 'bin-%s-%s-%s' % (mode, '_'.join(names)[:60], tag))
     if not os.path.exists(exe):
         for old in glob.glob(os.path.join(BUILD, 'bin-%s-%s-*' % (mode, '_'.join(names)[:60]))):
             os.remove(old)
-        cmd = [CXX, '-o', exe] + objs + [os.path.join(libd, 'libppl.a'), '-lz3'] + (['-lgmpxx'] if mode == 'con' else []) + ['-lgmp', '-lpthread']
+        cmd = [CXX, '-o', exe] + objs + [os.path.join(libd, 'libppl.a')] + Z3LINK + (['-lgmpxx'] if mode == 'con' else []) + ['-lgmp', '-lpthread']
         p = subprocess.run(cmd, stdout=subprocess.PIPE, stderr=subprocess.STDOUT, text=True)
         if p.returncode != 0:
             sys.stderr.write('LINK FAILED: ' + ' '.join(cmd) + '\n' + p.stdout[-6000:] + '\n')
